@@ -46,6 +46,7 @@ type journal struct {
 	gates      map[int]func() // called before the n-th reset call
 	failPlain  int         // the failPlain-th call not under the reset context fails (0: none); counted from armPlain
 	plainOps   int
+	plainGate  func() // called once, before the first call not under the reset context after it was set
 }
 
 var errInjected = errors.New("injected datastore error")
@@ -75,7 +76,12 @@ func (j *journal) tick(ctx context.Context) error {
 	}
 	j.plainOps++
 	fail := j.failPlain != 0 && j.failPlain == j.plainOps
+	pg := j.plainGate
+	j.plainGate = nil
 	j.mu.Unlock()
+	if pg != nil {
+		pg()
+	}
 	if fail {
 		return errInjected
 	}
@@ -496,6 +502,33 @@ func runKS(c *vu.Case) {
 			nk, err := w.ks.Put(ctx, ksParse(e["keys"])...)
 			disarm()
 			out = fmt.Sprintf("new=%s err=%s", ksList(nk, false), ksErr(err))
+		case "putclose":
+			// Close — twice, concurrently — while a Put is inside its first datastore call on the worker: both Closes
+			// return (the first waits for the operation in flight), nothing panics, the Put is acknowledged or refused
+			// but never half done; then the keystore is reopened
+			closes := make(chan struct{}, 2)
+			w.j.mu.Lock()
+			w.j.plainOps = 0
+			w.j.failPlain = 0
+			w.j.plainGate = func() {
+				for k := 0; k < 2; k++ {
+					go func() { _ = w.ks.Close(); closes <- struct{}{} }()
+				}
+				synctest.Wait()
+			}
+			w.j.mu.Unlock()
+			nk, err := w.ks.Put(ctx, ksParse(e["keys"])...)
+			synctest.Wait()
+			nclosed := len(closes)
+			w.j.mu.Lock()
+			w.j.plainGate = nil
+			w.j.mu.Unlock()
+			_ = w.ks.Close()
+			if err := w.open(); err != nil {
+				panic(err)
+			}
+			synctest.Wait()
+			out = fmt.Sprintf("new=%s err=%s closes=%d %s", ksList(nk, false), ksErr(err), nclosed, w.contents())
 		case "del":
 			armFail()
 			err := w.ks.Delete(ctx, ksParse(e["keys"])...)
@@ -828,7 +861,11 @@ func TestVerifC20(t *testing.T) {
 				case x < 12:
 					c.In = append(c.In, "has p="+prefix())
 				case x < 13:
-					c.In = append(c.In, "size")
+					if r.Bool() {
+						c.In = append(c.In, "putclose keys="+ids(r.Range(1, 3)))
+					} else {
+						c.In = append(c.In, "size")
+					}
 				case x < 14:
 					c.In = append(c.In, "restart")
 				case x < 15:
